@@ -12,8 +12,22 @@ def stall_part(res, cfg, binary, rng):
     per_iter = _shm.NCELL + 1 + (1 if cfg["r_fence"] is not None else 0)
     for prof in ("debug", "release"):
         b = c.build_harness(prof)[0]
-        outs = c.run_lines(b, ["stall 1", "stall 2"], timeout=600)
+        outs = []
+        for mode in (1, 2):
+            try:
+                outs.append(c.run_lines(b, ["stall %d" % mode], timeout=90)[0])
+            except c.CheckError as e:
+                if "exited 124" not in str(e):
+                    raise
+                outs.append(None)     # the call did not return within 90 s (a budgeted call takes < 1 s)
         for mode, out in zip((1, 2), outs):
+            if out is None:
+                res.evaluations += 1
+                res.count("stall-mode-%d:no-return" % mode)
+                bad.append({"schedule": "stall %d" % mode, "impl": "no return within 90 s", "profile": prof,
+                            "why": ["snapshot() did not return: the daemon %s and the client call never ended" %
+                                    ("stalled mid-update right after the client's first generation load" if mode == 1 else "kept publishing")]})
+                continue
             n, ret, kinds, ms = out.split()
             n = int(n)
             res.evaluations += 1
@@ -43,7 +57,11 @@ def replay(res, path):
     r = json.load(open(path))
     case = r.get("case") or {}
     if str(case.get("schedule", "")).startswith("stall"):
-        out = c.run_lines(c.build_harness("debug")[0], [case["schedule"]], timeout=600)[0]
+        try:
+            out = c.run_lines(c.build_harness("debug")[0], [case["schedule"]], timeout=90)[0]
+        except c.CheckError:
+            print("case %s\nimpl: no return within 90 s" % case["schedule"])
+            return 1
         print("case %s\nimpl %s" % (case["schedule"], out))
         return 0 if out.split()[1] == "E" else 1
     return _shm.replay_property("C18", res, path)
